@@ -168,8 +168,11 @@ class Recorder:
             self.fail("anchor:" + key, "anchor lost: " + desc, where, kind="anchor-lost")
         return cond
 
-    def floor(self, key, actual, expected_min, desc):
-        """vacuity floor: the rule must match at least the number of sites counted by hand"""
+    def floor(self, key, actual, counted, desc, slack=0.6):
+        """vacuity floor: `counted` is the number of sites counted by hand on the tree the rule was written
+        for; the rule must still match a substantial part of them (a refactoring may merge a few sites, but a
+        rule that matches next to nothing has lost its subject and must not pass vacuously)"""
+        expected_min = max(1, int(counted * slack))
         if actual < expected_min:
             self.fail("floor:" + key, "vacuity floor: %s: matched %d, expected at least %d" % (desc, actual, expected_min), kind="anchor-lost")
         else:
